@@ -31,6 +31,7 @@
 
 #include "buffered_reader.h"
 #include "http_server.h"
+#include "list.h"
 
 #ifdef __cplusplus
 extern "C" {
@@ -47,6 +48,7 @@ struct http_connection {
 	bool is_local_connection;
 	unsigned int compression_level;
 	const struct url_handler *url_handler;
+	struct list_head connection_list;
 };
 
 struct http_connection *alloc_http_connection(void);
@@ -54,6 +56,7 @@ int init_http_connection(struct http_connection *connection, const struct http_s
 int init_http_connection2(struct http_connection *connection, const struct http_server *server, struct buffered_reader *reader, bool is_local_connection,
                           unsigned int compression_level);
 void free_connection(void *context);
+void destroy_all_http_connections(void);
 int send_http_error_response(struct http_connection *connection);
 
 #define HTTP_OK 200
